@@ -9,19 +9,22 @@ from vlib import env
 
 EQCASE = os.path.join(env.VERIF, 'vlib', 'eqcase.py')
 
-NONFATAL = ['equal', 'different', 'player_raises', 'extractor_raises', 'comparator_raises', 'bare_status', 'spawn_child']
+NONFATAL = ['equal', 'different', 'player_raises', 'extractor_raises', 'comparator_raises', 'bare_status', 'spawn_child', 'dict_diff']
 FATAL = ['exit', 'hang', 'late', 'hang_sigterm_ignored']
 IDLE_DEATH = 'die_idle'     # answers normally, then the idle worker is killed; the verdict of the NEXT recording is unspecified
 EXPECTED = {'equal': 'Equal', 'different': 'Different', 'player_raises': 'EqualizerFailure', 'extractor_raises': 'EqualizerFailure',
             'comparator_raises': 'EqualizerFailure', 'bare_status': 'Equal', 'spawn_child': 'Equal', 'exit': 'EqualizerFailure', 'hang': 'EqualizerFailure',
-            'late': 'EqualizerFailure', 'hang_sigterm_ignored': 'EqualizerFailure', 'die_idle': 'Equal'}
+            'late': 'EqualizerFailure', 'hang_sigterm_ignored': 'EqualizerFailure', 'die_idle': 'Equal', 'dict_diff': 'Different',
+            'start_async_cassette': 'Equal'}
 
 
 def expected_duration(case):
     t = case.get('timeout', 1.0)
     n_slow = sum(1 for b in case['behaviours'] if b in ('hang', 'late', 'hang_sigterm_ignored'))
     n_exit = sum(1 for b in case['behaviours'] if b in ('exit', 'die_idle'))
-    return 3.0 + n_slow * (t + 2.5) + n_exit * 1.5 + 0.2 * len(case['behaviours'])
+    if case.get('slow_start'):
+        t += case['slow_start'] * 2
+    return 3.0 + len(case['behaviours']) * case.get('slow_start', 0) + n_slow * (t + 2.5) + n_exit * 1.5 + 0.2 * len(case['behaviours'])
 
 
 def run_one(case):
